@@ -6,6 +6,9 @@
    input line:   M <v><style bits> <ENT tokens> <TAB> <math table>     a 2.0 model (described by harness/c14_driver.cpp) to be
                      rewritten to 1.x:  v = 0 (1.0) | 1 (1.1); style bits = priv_first none pub_out priv_out cm us hoist
                  D <xml tokens> <TAB> <math table>                     a document tree (python expat parse of a 1.x text)
+                 N ( <nxml tokens>* )                                  the math elements of a 1.x document WITH prefixes and xmlns
+                     declarations: (n s<prefix> s<ns> s<name> ( (d s<prefix> s<uri>)* ) ( (a s<prefix> s<ns> s<name> s<value>)* ) ( kids ))
+                     -> NM <TAB> per math element the raw form of MathNsDefs.stored_math: (r s<qname> ( s<xmlns..=uri>* ) ( s<qname=value>* ) ( kids ))
    output:  M:  EX=<expressible_1xb><printableb><no_imports><no_hierarchy><no_connections><conv_ok (print_tree m)>
                 TX=<sxml of to1x m | NONE>  LI= LM=  (load1x, permissive, both fixes)  LI0= LM0= (no fix; "=" when the same)
                 LIi= LMi= (only fix C14-interface-none) LId= LMd= (only fix C14-foreign-children)
@@ -223,6 +226,35 @@ let run_doc line table =
   let e = make_env table in
   String.concat "\t" (loads e x @ ["MS=" ^ b2s (all_math math_in_scope x)])
 
+(* ---- the namespace-declaration layer (MathNsDefs): N ( <nsx>* )  ->  NM <TAB> raw form of each stored math *)
+let rec pnxml () =
+  expect "(";
+  match next () with
+  | "t" -> let s = str () in expect ")"; NText s
+  | "n" ->
+    let p = str () in let ns = str () in let nm = str () in
+    let decls = plist (fun () -> expect "("; expect "d"; let a = str () in let b = str () in expect ")"; (a, b)) in
+    let attrs = plist (fun () -> expect "("; expect "a"; let a = str () in let b = str () in let c = str () in let d = str () in expect ")";
+                        { nt_prefix = a; nt_ns = b; nt_name = c; nt_val = d }) in
+    let ks = plist pnxml in expect ")";
+    NElem (p, ns, nm, decls, attrs, ks)
+  | t -> raise (Bad ("nxml " ^ t))
+
+let qname p n = if p = [] then implode n else implode p ^ ":" ^ implode n
+let rec raw = function
+  | NText s -> "(t s" ^ hexencode (String.trim (implode s)) ^ ")"
+  | NComment -> "(c)"
+  | NElem (p, _, nm, decls, attrs, ks) ->
+    let ds = List.sort compare (List.map (fun (a, b) -> "s" ^ hexencode ((if a = [] then "xmlns" else "xmlns:" ^ implode a) ^ "=" ^ implode b)) decls) in
+    let ats = List.sort compare (List.map (fun a -> "s" ^ hexencode (qname a.nt_prefix a.nt_name ^ "=" ^ implode a.nt_val)) attrs) in
+    "(r s" ^ hexencode (qname p nm) ^ " (" ^ String.concat "" (List.map (fun x -> " " ^ x) ds) ^ " ) ("
+    ^ String.concat "" (List.map (fun x -> " " ^ x) ats) ^ " ) (" ^ String.concat "" (List.map (fun k -> " " ^ raw k) ks) ^ " ))"
+
+let run_ns line =
+  set_input line;
+  let ms = plist pnxml in
+  String.concat "\t" ("NM" :: List.map (fun m -> let s = stored_math m in (if no_1x_decl s then "" else "!1x ") ^ raw s) ms)
+
 let () =
   let ic = open_in Sys.argv.(1) in
   (try
@@ -239,6 +271,7 @@ let () =
           print_endline (match kind with
               | 'M' -> run_model main table
               | 'D' -> run_doc main table
+              | 'N' -> run_ns main
               | _ -> "SKIP")
         with Bad s -> print_endline ("BAD(" ^ s ^ ")")
            | Stack_overflow -> print_endline "STACK"
